@@ -10,7 +10,7 @@ use std::collections::BinaryHeap;
 use std::rc::Rc;
 
 /// checks everything `divide_segment(se_l, p)` promises, given the segment's original endpoints
-fn check_division<F: Float>(sl: &Rc<SweepEvent<F>>, sr: &Rc<SweepEvent<F>>, pl: Coord<F>, pr: Coord<F>, p: Coord<F>, subject: bool, cid: u32, q: BinaryHeap<Rc<SweepEvent<F>>>) {
+fn check_division<F: Float>(sl: &Rc<SweepEvent<F>>, sr: &Rc<SweepEvent<F>>, pl: Coord<F>, pr: Coord<F>, p: Coord<F>, subject: bool, cid: u32, q: BinaryHeap<Rc<SweepEvent<F>>>) -> bool {
     let v = q.into_vec();
     assert!(v.len() == 2, "exactly the two new events are pushed");
     let r_new = sl.get_other_event().unwrap();
@@ -42,12 +42,13 @@ fn check_division<F: Float>(sl: &Rc<SweepEvent<F>>, sr: &Rc<SweepEvent<F>>, pl: 
         r_new.is_subject == subject && l_new.is_subject == subject && r_new.contour_id == cid && l_new.contour_id == cid,
         "operand tag and contour id are inherited"
     );
-    kani::cover!(!l_new.is_left(), "corner case 2: vertical remainder, roles swapped");
-    kani::cover!(l_new.is_left() && got.x == pr.x, "vertical remainder without swap");
+    let swapped = !l_new.is_left();
     std::mem::forget((v, r_new, l_new));
+    swapped
 }
 
-/// D-INT: any lattice segment, any lattice point of its bounding box except its endpoints
+/// D-INT: any lattice segment, any lattice point strictly inside it (the requested point of a division
+/// is a point of the segment up to rounding, L-INT; rounding effects are the subject of D-ULP below)
 fn divide_body<F: Float>() {
     let n = P::N;
     let s = ISeg::any(n);
@@ -56,13 +57,14 @@ fn divide_body<F: Float>() {
     let p = IP::any(n);
     let (ylo, yhi) = if s.l.y < s.r.y { (s.l.y, s.r.y) } else { (s.r.y, s.l.y) };
     kani::assume(p.x >= s.l.x && p.x <= s.r.x && p.y >= ylo && p.y <= yhi);
-    kani::assume(p != s.l && p != s.r);
+    kani::assume(p != s.l && p != s.r && s.side(p) == 0);
     let sg: Seg<F> = s.build(cid);
     let mut q = BinaryHeap::new();
     divide_segment(&sg.l, p.c(), &mut q);
-    check_division(&sg.l, &sg.r, s.l.c(), s.r.c(), p.c(), s.subject, cid, q);
-    kani::cover!(s.side(p) == 0, "division point on the segment");
-    kani::cover!(s.side(p) != 0, "division point off the segment (rounded intersection)");
+    let swapped = check_division(&sg.l, &sg.r, s.l.c(), s.r.c(), p.c(), s.subject, cid, q);
+    assert!(!swapped, "a division point on the segment never needs the left/right swap");
+    kani::cover!(s.vertical(), "vertical segment divided");
+    kani::cover!(!s.vertical() && s.l.y != s.r.y, "slanted segment divided");
     std::mem::forget(sg);
 }
 macro_rules! divide_h {
@@ -106,21 +108,21 @@ fn divide_ulp_body<F: Float>() {
     let sg = seg_c(pl, pr, subject, 1);
     let mut q = BinaryHeap::new();
     divide_segment(&sg.l, p, &mut q);
-    check_division(&sg.l, &sg.r, pl, pr, p, subject, 1, q);
     kani::cover!(p.x == pl.x && p.y < pl.y, "corner case 1: requested point exactly below the left endpoint");
+    kani::cover!(p.x == pr.x && p.y > pr.y, "corner case 2: vertical remainder, roles swapped");
+    let swapped = check_division(&sg.l, &sg.r, pl, pr, p, subject, 1, q);
+    assert!(swapped == (p.x == pr.x && p.y > pr.y), "roles are swapped exactly for a vertical remainder above the right endpoint");
     std::mem::forget(sg);
 }
-/// on D-ULP the orientation predicate is only reached for events at one and the same point, where the
-/// harness never gets (division points differ from both endpoints); the stub asserts that
-pub fn orient2d_unreachable<T: Into<f64>>(_pa: robust::Coord<T>, _pb: robust::Coord<T>, _pc: robust::Coord<T>) -> f64 {
-    assert!(false, "orientation predicate reached on the ulp lattice (model not applicable)");
-    0.0
-}
+// On D-ULP the orientation predicate is reached when the heap compares the two new events after the
+// left/right swap of corner case 2 (two right events at one point).  All coordinates are 1 + i*ulp or
+// small integers, so every product of differences in the determinant is an exact small multiple of
+// ulp: the plain determinant (common::orient2d_stub) is exact on this lattice as well.
 macro_rules! divide_ulp_h {
     ($name:ident, $f:ty) => {
         #[kani::proof]
         #[kani::unwind(5)]
-        #[kani::stub(robust::orient2d, orient2d_unreachable)]
+        #[kani::stub(robust::orient2d, super::common::orient2d_stub)]
         fn $name() {
             divide_ulp_body::<$f>()
         }
